@@ -1,0 +1,35 @@
+//go:build verif
+
+package doublesign
+
+// Machine-checked contracts for /verif (read as text by the VC generator; no code).
+// tns, ZeroNs, satdur: see /verif/contracts/trusted/time.contracts.
+//
+//@ spec since(s SyncStatus, t time.Time) int = satdur(tns(s.Now) - tns(t))
+//@ spec rem(s SyncStatus, t time.Time, threshold int) int = threshold - since(s, t)
+//@ spec pending(s SyncStatus, t time.Time, threshold int) bool = since(s, t) < threshold
+//@ spec max5(a int, b int, c int, d int, e int) int = max(a, max(b, max(c, max(d, e))))
+//@ spec prem(s SyncStatus, t time.Time, threshold int) int = ite(pending(s, t, threshold), rem(s, t, threshold), 0)
+//@
+//@ func (*SyncStatus).Since
+//@   requires s != nil
+//@   ensures  result == satdur(tns(s.Now) - tns(t))
+//@
+//@ func (*maxWaitError).apply
+//@   requires m != nil
+//@   modifies m.wait, m.waitErr
+//@   ensures  old(m.wait) < wait ==> m.wait == wait && m.waitErr == waitErr
+//@   ensures  !(old(m.wait) < wait) ==> m.wait == old(m.wait) && m.waitErr == old(m.waitErr)
+//@
+//@ func remaining
+//@   requires since < threshold
+//@   ensures  result == min(MaxDur, threshold - since) && result > 0
+//@
+//@ func SyncedToEmit
+//@   ensures  [permit] result1 == nil ==> s.PeersNum != 0 && tns(s.P2PSynced) != ZeroNs && !pending(s, s.ExternalSelfEventDetected, threshold) && !pending(s, s.ExternalSelfEventCreated, threshold) && !pending(s, s.BecameValidator, threshold) && !pending(s, s.LastConnected, threshold) && !pending(s, s.P2PSynced, threshold)
+//@   ensures  [permit_exact] threshold > MinDur && result1 == nil ==> tns(s.Now) - tns(s.ExternalSelfEventDetected) >= threshold && tns(s.Now) - tns(s.ExternalSelfEventCreated) >= threshold && tns(s.Now) - tns(s.BecameValidator) >= threshold && tns(s.Now) - tns(s.LastConnected) >= threshold && tns(s.Now) - tns(s.P2PSynced) >= threshold
+//@   ensures  [refuse] s.PeersNum == 0 || tns(s.P2PSynced) == ZeroNs ==> result1 != nil
+//@   ensures  [wait] s.PeersNum != 0 && tns(s.P2PSynced) != ZeroNs && (pending(s, s.ExternalSelfEventDetected, threshold) || pending(s, s.ExternalSelfEventCreated, threshold) || pending(s, s.BecameValidator, threshold) || pending(s, s.LastConnected, threshold) || pending(s, s.P2PSynced, threshold)) ==> result1 != nil && result0 > 0 && result0 == min(MaxDur, max5(prem(s, s.ExternalSelfEventDetected, threshold), prem(s, s.ExternalSelfEventCreated, threshold), prem(s, s.BecameValidator, threshold), prem(s, s.LastConnected, threshold), prem(s, s.P2PSynced, threshold)))
+//@
+//@ func DetectParallelInstance
+//@   ensures  result == (!(tns(s.ExternalSelfEventCreated) < tns(s.Startup)) && since(s, s.ExternalSelfEventCreated) < threshold)
